@@ -14,6 +14,7 @@ that access is bounds-checked against n like any other; decode of arbitrary byte
         When unmarshal accepts: get_marshalled_length(result) = n (variable-length kinds), and marshalling the result into a buffer of
         exactly that many bytes writes all of them and nothing else (C15 (a) on the parsed object).
         Fixed-size kinds have no length discovery: the precondition is n >= the library's own *_get_marshalled_length(compressed).
+  parse:fq12-io                    the REAL Fq12/Fq6/Fq2::read_big_endian on an n-byte buffer (n >= 576 symbolic) over 48-byte Fq::read_big_endian tokens
   lengthfn:<kind>:<enc>            *_unmarshalled_length on the n-byte buffer reads inside [0, n) for every n >= 1 (it may only look at byte 0)
   align:<kind>:<enc>:<direction>   every access made by unmarshal / by the re-marshal satisfies the alignment the IR declares for it although the
         buffer is only 1-aligned.  A finding is reported with the key  S7:FreeSlotMarshalled-idx-align:<function>  (other misalignments:
@@ -146,7 +147,7 @@ def ob_align(kname, comp, direction, lmax):
         st = scenario(W, kind, comp, 1, lmax)
     except MemViolation as e:
         raise Inconclusive("the parse scenario itself fails (%s); see parse:*" % e)
-    ev = [e for e in W.I.align_events if (direction == "unmarshal") == ("unmarshal" in e[0])]
+    ev = sorted(set(e for e in W.I.align_events if (direction == "unmarshal") == ("unmarshal" in e[0])), key=str)
     if ev:
         fn = ev[0][0]
         where = sorted(set((e[1], e[2]) for e in ev if e[0] == fn))
@@ -200,15 +201,18 @@ def replay_align(res):
 
 
 def register(chk):
+    def add(name, fn, *args):
+        chk.add(name, marsh.guarded, name, fn, *args)
     lmax = 8 if chk.tier == "quick" else 12
+    add("parse:fq12-io", marsh.fq12_io, TAG, True)
     for kind in KINDS + BLS_KINDS:
         for comp in marsh.forms(kind):
             for checked in ((1,) if kind.nocomp else (1, 0)):
-                chk.add("parse:%s:%s:checked=%d" % (kind.name, fname(comp), checked), ob_parse, kind.name, comp, checked, lmax if kind.var else 0)
+                add("parse:%s:%s:checked=%d" % (kind.name, fname(comp), checked), ob_parse, kind.name, comp, checked, lmax if kind.var else 0)
             if kind.var:
-                chk.add("lengthfn:%s:%s" % (kind.name, fname(comp)), ob_lengthfn, kind.name, comp)
+                add("lengthfn:%s:%s" % (kind.name, fname(comp)), ob_lengthfn, kind.name, comp)
             for d in ("unmarshal", "marshal"):
-                chk.add("align:%s:%s:%s" % (kind.name, fname(comp), d), ob_align, kind.name, comp, d, min(lmax, 2) if kind.var else 0)
+                add("align:%s:%s:%s" % (kind.name, fname(comp), d), ob_align, kind.name, comp, d, min(lmax, 2) if kind.var else 0)
     return lmax
 
 
@@ -216,14 +220,16 @@ def main(argv=None):
     chk = Check("C17", "proof", argv)
     chk.replayer = replay_align
     marsh.prog(TAG)
+    marsh.prog(TAG + "_tower", marsh.TOWER_FILES)
     lmax = register(chk)
     chk.explanation = __doc__.strip()
     chk.bounds = ["buffer length n: every value in [1, 2^20] (symbolic); contents: every byte string; first byte: every value",
                   "slot counts reported by length discovery: -1 and 0..%d (enumerated by the solver; the slot loops are unrolled, no loop cut beyond)" % lmax,
                   "alignment obligations: slot counts 0..2 (the offsets of all slots are congruent modulo 4)",
                   "x86-64 IR (configuration A); the thumbv6m / aarch64 IR of the same sources is not re-run here"]
-    chk.trusted = ["contract of Encoding::decode / Fq12::read_big_endian: they access exactly Encoding::size / 576 bytes at `this` / the given pointer with byte "
-                   "accesses (bounds of the real decode on an exact-size buffer: C09's runs; Fq12 I/O: C04)", "clang -O1 IR of the current tree, E-IR, z3"]
+    chk.trusted = ["contract of Encoding::decode / Fq::read_big_endian: they access exactly Encoding::size / 48 bytes at `this` / the given pointer with byte accesses "
+                   "(the real decode runs on an exact-size buffer with the same A-MEM assertions in C09, Fq I/O in C02); the Fq12 level is run for real in parse:fq12-io",
+                   "clang -O1 IR of the current tree, E-IR, z3; native confirmation of alignment findings uses clang's -fsanitize=alignment on src/wkdibe/marshal.cpp only"]
     chk.assumptions = ["fixed-size kinds (ciphertext, signature, master keys, LQ-IBE objects, g1/g2/gt): the caller passes at least *_get_marshalled_length(compressed) bytes "
                        "(the API has no length parameter for them)",
                        "the destination object is valid writable memory of sizeof(struct) and, for Params / SecretKey, points to l slots where l is what set_length returned",
